@@ -413,12 +413,28 @@ func c17ListenerCancelScenarios(tier string) []*Scenario {
 	return out
 }
 
+// c16NestedMaxDurationPrograms: the C02 programs in which a retry policy with a max duration sits inside
+// another retry policy (it reports OnRetriesExceeded once, then passes the outer policy's later attempts
+// through), under the event contract.
+func c16NestedMaxDurationPrograms(tier string) []*Program {
+	var out []*Program
+	for _, p := range c02Programs(tier) {
+		if len(p.Stack) == 2 && p.Stack[0].Kind == KRetry && p.Stack[1].Kind == KRetry && p.Stack[1].MaxDuration != 0 {
+			q := *p
+			q.Checks = "layers,events"
+			out = append(out, &q)
+		}
+	}
+	return out
+}
+
 func init() {
 	scenarioSets["C16"] = func(tier string) []*Scenario {
 		scs := append(c16ConcurrentScenarios(tier), hedgeTimingScenarios("C16/hedge-timing", tier, "events")...)
 		scs = append(scs, c16AsyncScenarios(tier)...)
 		scs = append(scs, c16StoryScenarios(tier)...)
 		scs = append(scs, c16ListenerSubsetScenarios(tier)...)
+		scs = append(scs, programScenarios("C16", c16NestedMaxDurationPrograms(tier), 1)...)
 		return append(scs, programScenarios("C16", pxPrograms(tier, "layers,events"), 1)...)
 	}
 }
